@@ -141,4 +141,18 @@ theorem length_filter_le_of_imp {α} (p q : α → Bool) (l : List α) (h : ∀ 
         simp only [List.filter_cons, hp', hq']
         simpa using ih'
 
+/-- the IDs of `SearchDocs` over the really kept fractions: the first `L` of the duplicate-free union of ALL matching
+documents under the `(MID, RID)` order - ties on MID across fractions included -/
+theorem searchDocsDist_ids (c : Cfg) (ps : List (Frac × Info)) (qf qt L : Nat)
+    (hinv : ∀ p, p ∈ ps → FracInv p.1)
+    (hkeep : ∀ p, p ∈ ps → p.1.docs ≠ [] → FracInfo.isIntersecting p.2 qf qt = true)
+    (hmax : c.maxHits = 0 ∨ (keptDist ps qf qt).length ≤ c.maxHits) :
+    ∃ q, searchDocsDist c ps qf qt L = some q ∧ q.ids = (sd c.desc (docsOf (ps.map Prod.fst))).take L := by
+  have hinv2 : ∀ f, f ∈ keptDist ps qf qt → FracInv f := by
+    intro f hf
+    rcases List.mem_map.1 hf with ⟨p, hp, rfl⟩
+    exact hinv p (List.mem_filter.1 hp).1
+  obtain ⟨q, hq, hqi⟩ := searchOver_ids c _ L hinv2 hmax
+  exact ⟨q, hq, by rw [hqi, docsOf_keptDist ps qf qt hkeep]⟩
+
 end SV.Merge
